@@ -1,4 +1,88 @@
-/* cooperative preemption-bounded scheduler (filled in by the C19 machinery) */
+/* Cooperative, preemption-bounded thread scheduler.
+ *
+ * Threads registered with sched_run() execute one at a time.  Every wrapped system call (drv/env.c) and the start of
+ * every thread is a scheduling point: the thread parks there and the controller - the thread that called sched_run() -
+ * picks who continues.  Choices are replayed from a prefix and default to "keep running the current thread" afterwards,
+ * so that a schedule is fully described by the list of non-default choices.  The enabled set at a point is listed in
+ * canonical order: the running thread first if it is still enabled, then ascending ids.
+ *
+ * This translation unit is compiled WITHOUT -fsanitize=thread in the tsan variant and is not used by the free-running
+ * race pass at all (the semaphore hand-offs would be happens-before edges that hide races from the detector). */
 #include "drv.h"
+#include "vfsched.h"
+#include <pthread.h>
+#include <semaphore.h>
+
 int sched_active = 0;
-__attribute__((weak)) void sched_point(void) {}
+
+enum { ST_PARKED = 1, ST_RUNNING = 2, ST_DONE = 3 };
+static int nthr;
+static sem_t go[SCHED_MAXT], ctl;
+static volatile int state[SCHED_MAXT];
+static __thread int my_id = -1;
+static sched_body bodies[SCHED_MAXT];
+static void *args[SCHED_MAXT];
+
+void sched_point(void) {
+    if(!sched_active || my_id < 0) return;
+    state[my_id] = ST_PARKED;
+    sem_post(&ctl);
+    sem_wait(&go[my_id]);
+    state[my_id] = ST_RUNNING;
+}
+
+static void *tramp(void *v) {
+    my_id = (int)(long)v;
+    /* thread start is a scheduling point */
+    sem_wait(&go[my_id]);
+    state[my_id] = ST_RUNNING;
+    bodies[my_id](args[my_id]);
+    state[my_id] = ST_DONE;
+    int me = my_id;
+    my_id = -1;
+    (void)me;
+    sem_post(&ctl);
+    return NULL;
+}
+
+/* runs the bodies under the schedule; fills tr.  Returns 0, or -1 when the prefix did not replay (harness error) */
+int sched_run(int n, sched_body *b, void **a, const unsigned char *prefix, int nprefix, sched_trace *tr) {
+    if(n > SCHED_MAXT) die("too many threads");
+    nthr = n;
+    memset(tr, 0, sizeof *tr);
+    sem_init(&ctl, 0, 0);
+    pthread_t th[SCHED_MAXT];
+    for(int i = 0; i < n; i++) {
+        sem_init(&go[i], 0, 0);
+        bodies[i] = b[i];
+        args[i] = a[i];
+        state[i] = ST_PARKED;
+    }
+    sched_active = 1;
+    for(int i = 0; i < n; i++)
+        if(pthread_create(&th[i], NULL, tramp, (void *)(long)i)) die("pthread_create");
+    int cur = -1, rc = 0;
+    for(;;) {
+        int en[SCHED_MAXT], ne = 0;
+        if(cur >= 0 && state[cur] != ST_DONE) en[ne++] = cur;
+        for(int i = 0; i < n; i++)
+            if(state[i] != ST_DONE && i != cur) en[ne++] = i;
+        if(ne == 0) break;
+        int p = tr->npoints;
+        if(p >= SCHED_MAXPOINTS) die("schedule too long");
+        int choice = p < nprefix ? prefix[p] : 0;
+        if(choice >= ne) { rc = -1; choice = 0; }
+        tr->nenabled[p] = (unsigned char)ne;
+        tr->cur_enabled[p] = (unsigned char)(cur >= 0 && state[cur] != ST_DONE);
+        tr->choice[p] = (unsigned char)choice;
+        tr->who[p] = (unsigned char)en[choice];
+        tr->npoints++;
+        cur = en[choice];
+        sem_post(&go[cur]);
+        sem_wait(&ctl);     /* until cur parks at its next point or finishes */
+    }
+    for(int i = 0; i < n; i++) pthread_join(th[i], NULL);
+    sched_active = 0;
+    return rc;
+}
+
